@@ -435,6 +435,33 @@ var scenarios = []scenario{
 		s.CreateCollection("c:", nil)
 		s.Audit("isolation")
 	}},
+	{"isolation-dotted-names", "C13 C14 C06", func(s *S) {
+		// collection "c" with an index on n.a, collection "c.n" with an index on a, ... : "<collection>.<field>" is ambiguous, the key space must not be
+		docs := numDocs(6)
+		for _, n := range []string{"c", "c.n", "c.n.a", "x", "x.n"} {
+			s.CreateCollection(n, nil)
+			s.Insert(n, docs, false)
+		}
+		s.CreateIndex("c", "n.a")
+		s.CreateIndex("c.n", "a")
+		s.CreateIndex("c", "n")
+		s.CreateIndex("c.n.a", "")
+		s.CreateIndex("x", "n.b")
+		s.CreateIndex("x.n", "b")
+		s.AuditPhysical("indexes on dotted collection / field names")
+		asc := func(f string) model.SortOpt { return model.SortOpt{Field: f, Dir: 1} }
+		for _, pr := range [][2]string{{"c", "n.a"}, {"c.n", "a"}, {"x", "n.b"}, {"x.n", "b"}} {
+			s.FindAll(&model.Query{Coll: pr[0], Sorted: true, Sort: []model.SortOpt{asc(pr[1])}})
+			s.FindAll(&model.Query{Coll: pr[0], Crit: cmpc(model.OpGtEq, pr[1], int64(1))})
+		}
+		s.Bulk(BulkUpdateMap, &model.Query{Coll: "c.n", Crit: cmpc(model.OpLtEq, "x", int64(3))}, &Upd{Name: "set", Set: map[string]any{"a": int64(9)}})
+		s.Bulk(BulkDelete, &model.Query{Coll: "c", Crit: cmpc(model.OpGtEq, "n.a", int64(2))}, nil)
+		s.DropIndex("c.n", "a")
+		s.Audit("drop of c.n/a next to c/n.a")
+		s.DropIndex("x", "n.b")
+		s.DropCollection("c")
+		s.Audit("drop of collection c next to c.n")
+	}},
 }
 
 // RunDirected runs scenario number Case (if it guards the property being
